@@ -223,12 +223,17 @@ impl PeerSim {
                 }
             }
         }
-        if self.state() != State::Closed {
-            self.sock().abort();
-            let _ = self.host.poll(self.now);
-        }
-        if self.state() != State::Closed {
-            return None;
+        // a listener that fell back to LISTEN (RST during the handshake) keeps listening for the
+        // next peer when the new configuration is a passive open: nothing is called on the socket
+        let keep_listening = self.state() == State::Listen && !cfg.active;
+        if !keep_listening {
+            if self.state() != State::Closed {
+                self.sock().abort();
+                let _ = self.host.poll(self.now);
+            }
+            if self.state() != State::Closed {
+                return None;
+            }
         }
         self.host.dev.rx.clear();
         cfg.v6 = self.cfg.v6;
@@ -238,10 +243,14 @@ impl PeerSim {
         cfg.seed = self.cfg.seed;
         let now = self.now + 1_000;
         let PeerSim { host, h, .. } = self;
-        Some(Self::on_host(host, h, now, cfg, case_tag))
+        Some(Self::on_host_ex(host, h, now, cfg, case_tag, keep_listening))
     }
 
-    fn on_host(mut host: Host, h: SocketHandle, now: Micros, cfg: PeerCfg, case_tag: u64) -> PeerSim {
+    fn on_host(host: Host, h: SocketHandle, now: Micros, cfg: PeerCfg, case_tag: u64) -> PeerSim {
+        Self::on_host_ex(host, h, now, cfg, case_tag, false)
+    }
+
+    fn on_host_ex(mut host: Host, h: SocketHandle, now: Micros, cfg: PeerCfg, case_tag: u64, already_listening: bool) -> PeerSim {
         let (a_me, a_peer) = Self::addrs(cfg.v6);
         {
             let s = host.sockets.get_mut::<tcp::Socket>(h);
@@ -302,7 +311,9 @@ impl PeerSim {
             let cx = sim.host.iface.context();
             sim.host.sockets.get_mut::<tcp::Socket>(h).connect(cx, IpEndpoint::new(a_peer, PEER_PORT), SOCK_PORT).expect("connect");
         } else {
-            sim.host.sockets.get_mut::<tcp::Socket>(h).listen(SOCK_PORT).expect("listen");
+            if !already_listening {
+                sim.host.sockets.get_mut::<tcp::Socket>(h).listen(SOCK_PORT).expect("listen");
+            }
             sim.from_listen = true;
         }
         sim
